@@ -262,10 +262,19 @@ def _run_data(case, rec):
     res = mujoco.MjData(mjm)
     mjw.get_data_into(res, mjm, d, world_id=w)
     ctx = f"world {w} of {nworld} (ncon {mjd.ncon} nefc {mjd.nefc} sparse {bool(m.is_sparse)})"
+    gap = bool(mjd.ncon and np.any(np.asarray(mjd.contact.efc_address)[: mjd.ncon] < 0))
+    efc_bad = []  # (sig, message) of row-order dependent fields
     for f in DATA_FIELDS:
       rec.check()
       ok, why = _f32eq(getattr(res, f), getattr(mjd, f))
-      if not ok:
+      if ok:
+        continue
+      if f == "efc_state" and not np.any(np.asarray(res.efc_state)) and np.any(np.asarray(mjd.efc_state)):
+        rec.viol("put_data:efc_state-not-copied", f"put_data->get_data_into returns efc_state all zero, source has {np.asarray(mjd.efc_state)[:8]}...; {ctx}")
+        rec.count("efc_state_lost")
+      elif f.startswith("efc_"):
+        efc_bad.append((f"roundtrip:field-differs:{f}", f"put_data->get_data_into: MjData.{f} {why}; {ctx}"))
+      else:
         rec.viol(f"roundtrip:field-differs:{f}", f"put_data->get_data_into: MjData.{f} {why}; {ctx}")
     rec.check()
     if int(res.solver_niter[0]) != int(mjd.solver_niter[0]):
@@ -273,18 +282,33 @@ def _run_data(case, rec):
     for f, tol in APPROX.items():
       rec.check()
       a, r = np.asarray(getattr(res, f)), np.asarray(getattr(mjd, f))
-      if a.shape != r.shape or (a.size and np.abs(a - r).max() > tol * max(1.0, np.abs(r).max())):
-        rec.viol(f"roundtrip:field-differs:{f}", f"MjData.{f} differs by {np.abs(a - r).max() if a.shape == r.shape else 'shape'}; {ctx}")
+      scale = max(1.0, float(np.abs(r).max()) if r.size else 1.0, float(np.abs(np.asarray(mjd.M)).max()) if mjm.nv else 1.0)
+      if a.shape != r.shape or (a.size and np.abs(a - r).max() > tol * scale):
+        rec.viol(f"roundtrip:field-differs:{f}", f"MjData.{f} differs by {np.abs(a - r).max() if a.shape == r.shape else 'shape'} (scale {scale:.3g}); {ctx}")
     for f in CONTACT_FIELDS:
       rec.check()
       ok, why = _f32eq(getattr(res.contact, f), getattr(mjd.contact, f))
       if not ok:
-        rec.viol(f"roundtrip:contact-differs:{f}", f"contact.{f} (MuJoCo order) {why}; {ctx}")
+        if f == "efc_address":
+          efc_bad.append(("roundtrip:contact-differs:efc_address", f"contact.efc_address {np.asarray(res.contact.efc_address)[:8]} vs {np.asarray(mjd.contact.efc_address)[:8]}; {ctx}"))
+        else:
+          rec.viol(f"roundtrip:contact-differs:{f}", f"contact.{f} (MuJoCo order) {why}; {ctx}")
     rec.check()
     if res.nefc == mjd.nefc:
       ok, why = _f32eq(_dense_J(mjm, res), Jref)
       if not ok:
-        rec.viol("roundtrip:field-differs:efc_J", f"efc_J (densified, MuJoCo row order) {why}; {ctx}")
+        efc_bad.append(("roundtrip:field-differs:efc_J", f"efc_J (densified, MuJoCo row order) {why}; {ctx}"))
+    if efc_bad and gap:
+      rec.viol(
+        "get_data_into:contact-without-rows-corrupts-efc-order",
+        f"source has contacts with efc_address=-1 (inside margin but beyond gap): {np.asarray(mjd.contact.efc_address)[: mjd.ncon][:10]}; get_data_into returns efc_address {np.asarray(res.contact.efc_address)[:10]} and shifted efc rows ({', '.join(x[0].split(':')[-1] for x in efc_bad)}); {ctx}",
+      )
+      rec.count("gap_contact_row_corruption")
+    else:
+      for sg, msg in efc_bad:
+        rec.viol(sg, msg)
+    if gap:
+      rec.count("worlds_with_rowless_contacts")
     if mjd.nisland > 0:
       rec.check()
       if res.nisland != mjd.nisland:
@@ -391,10 +415,10 @@ REJECTS = {
   "sleep+CG": (BASE, _both(_opt("enableflags", int(E.mjENBL_SLEEP), True), _opt("solver", int(mujoco.mjtSolver.mjSOL_CG)))),
   "flex:internal": ("path:flex/floppy.xml", _set("flex_internal", 0, 1)),
   "flex:quadratic-interp": ("path:flex/floppy.xml", _set("flex_interp", 0, 2)),
-  "sleep+flex-equality": ("path:flex/floppy.xml", _both(_opt("enableflags", int(E.mjENBL_SLEEP), True), _set("eq_type", 0, int(mujoco.mjtEq.mjEQ_FLEX)))),
+  "sleep+flex-equality": ("path:flex/rope.xml", _opt("enableflags", int(E.mjENBL_SLEEP), True)),
 }
 # controls: the unmodified base models must be accepted, otherwise a rejection proves nothing
-CONTROLS = {"control:BASE": (BASE, None), "control:dense-nv60": (_chain_xml(60), None), "control:flex": ("path:flex/floppy.xml", None)}
+CONTROLS = {"control:BASE": (BASE, None), "control:dense-nv60": (_chain_xml(60), None), "control:flex": ("path:flex/floppy.xml", None), "control:flex-equality": ("path:flex/rope.xml", None)}
 REJECTS.update(CONTROLS)
 
 
@@ -431,6 +455,7 @@ def _run_reject(case, rec):
   else:
     if accepted:
       rec.viol("put_model:unsupported-accepted:" + name, f"put_model returned a Model for a model using unsupported feature {name}")
+      rec.count("unsupported_accepted")
     else:
       rec.count("unsupported_rejected")
       rec.cover("rejected_features", name)
@@ -464,8 +489,9 @@ def requirements(agg, tier):
     if k not in types_seen:
       unmet.append(f"constraint type never round-tripped: {k}")
   nrej = len(REJECTS) - len(CONTROLS)
-  if t.get("unsupported_rejected", 0) + sum(1 for _ in ()) < 1 and tier:
-    pass
+  decided = len(cov.get("rejected_features", []))
+  if decided + agg["tally"].get("unsupported_accepted", 0) < nrej:
+    unmet.append(f"only {decided} of {nrej} unsupported-feature probes were decided")
   if t.get("controls_accepted", 0) < len(CONTROLS):
     unmet.append("a control model of the unsupported catalogue was not accepted")
   if agg["distinct"] < 50:
